@@ -376,7 +376,19 @@ class SymbolTable(OpTrait):
             ) is not None and sym_interface.get_sym_attr_name(o) == name.root_reference:
                 if not name.nested_references:
                     return o
+                # The remaining components are resolved inside `o`, which must itself
+                # be a symbol table; a private symbol is not visible from outside.
+                if not o.has_trait(SymbolTable):
+                    return None
                 nested_root, *nested_references = name.nested_references.data
+                child = SymbolTable.lookup_symbol(o, nested_root)
+                if child is None:
+                    return None
+                visibility = child.get_attr_or_prop("sym_visibility")
+                if isinstance(visibility, StringAttr) and visibility.data == "private":
+                    return None
+                if not nested_references:
+                    return child
                 nested_name = SymbolRefAttr(nested_root, nested_references)
                 return SymbolTable.lookup_symbol(o, nested_name)
         return None
